@@ -525,3 +525,25 @@ def check_C17():
         "exhaustive": True, "explanation": "TLC checks Contained on the complete bounded state graph of ExtractFS.tla; without the guard it yields the counterexample: %s" % noguard.get("violated")})
     finish("C17", "model_checking", cov, rep["violations"] or [], inconclusive=rep.get("inconclusive") or None, drift=rep.get("model_drift") or None,
            assumptions=["kernel path resolution is what the model says (the verdict itself is the real snapshot comparison)", "plain (unsharded) directories; HAMT-sharded directories are not generated"])
+
+
+def check_C18():
+    vh = build_harness()
+    car = vlib.build_car()
+    cfg = "Tree_1" if tier() == "quick" else "Tree_2"
+    model = run_tlc("MCTree", cfg + ".cfg", timeout=1800)
+    tlc_must_pass(model, "Tree.tla RoundTrip")
+    em = run_tlc("MCTree", cfg + "_emit.cfg", timeout=2400)
+    tlc_must_pass(em, "Tree.tla emitter")
+    pm = 150 if tier() == "quick" else 60
+    rc, rep = harness_run(vh, ["tree-replay", em["out"], "@REPORT", car, "seed=%d" % seed(), "permille=%d" % pm], timeout=3400)
+    os.remove(em["out"])
+    cov = {"evaluations": rep["evaluations"], "distinct_nontrivial": rep["distinct_nontrivial"],
+           "rule": "TLC enumerates every tree of <= 2 top-level entries over {empty / small / identical-content / unicode-named / exactly-one-chunk / multi-chunk / repeated-chunk files, relative / absolute / "
+                   "dangling / non-clean symlinks, directories (one with a space in its name) with <= %d children} x --version {1,2} x --no-wrap x extraction from {file, stdin pipe} (%d cases); a seeded "
+                   "%d permille sample is materialised as a real tree, packed by the built `car create`, `car root` is compared with the single header root (which must be among the blocks), and the archive "
+                   "is extracted and compared entry by entry (names, content length+hash, link targets) with the source tree re-rooted as Tree.tla says" % (1 if tier() == "quick" else 2, em["distinct"], pm),
+           "samples": rep["samples"] or [{}], "model_cases": em["distinct"], "states": model["distinct"]}
+    finish("C18", "exploration", cov, rep["violations"] or [], inconclusive=rep.get("inconclusive") or None,
+           assumptions=["chunking and HAMT sharding happen inside go-unixfsnode; the specification only makes sure the size classes are generated",
+                        "directories large enough to be sharded are not generated in this round"])
